@@ -4,6 +4,8 @@ From Coq Require Import ZArith List Lia Permutation Sorting.Sorted Bool.
 From FV.C11 Require Import Model.
 From FV.C18 Require Import Model.
 Import ListNotations.
+(* no sentence of this file may hold the shared Coq build lock for long *)
+Set Default Timeout 240.
 
 Lemma filter_lt_nil (x : Z) (l : list Z) :
   Forall (fun y => (x <= y)%Z) l -> filter (fun y => Z.ltb y x) l = [].
